@@ -57,8 +57,14 @@ impl Pace {
     /// whole transfer stays well below sozu's timeouts (slow peers are a separate, explicit fault).
     pub fn random(rng: &mut Prng, bytes_hint: usize) -> Pace {
         let gap_pm = *rng.pick(&[0u32, 0, 0, 50, 200, 500]);
-        let wq = Quantum::random(rng);
-        let rq = Quantum::random(rng);
+        let mut wq = Quantum::random(rng);
+        let mut rq = Quantum::random(rng);
+        // byte-at-a-time pacing of large transfers costs wall time without adding schedules
+        let tiny = |q: &Quantum| matches!(q, Quantum::Fixed(n) if *n < 64) || matches!(q, Quantum::Uniform(_, b) if *b <= 16);
+        if bytes_hint > 48 * 1024 {
+            if tiny(&wq) { wq = Quantum::Uniform(1, 2000); }
+            if tiny(&rq) { rq = Quantum::Uniform(1, 2000); }
+        }
         let avg = |q: &Quantum| -> u64 { match q { Quantum::All => 1 << 20, Quantum::Fixed(n) => *n as u64, Quantum::Uniform(a, b) => ((*a + *b) / 2) as u64 } };
         let ops = (bytes_hint as u64 / avg(&wq).max(1)).max(bytes_hint as u64 / avg(&rq).max(1)).max(1);
         // budget: at most ~1.5 virtual seconds of pauses in total
